@@ -5,7 +5,7 @@
   `Gen/Logic*.lean` is regenerated from /repo on every run (translate/gen_logic.py): the boolean
   conditions of `can_backdate` / `backdate_if_appropriate`, `shallow_verify_memo`,
   `maybe_changed_after_hot/_cold`, `verify_memo`, `deep_verify_memo/_edges`, `fetch_hot/_cold`,
-  … as Lean functions over small structures of abstract values.  The theorems below state that
+  the claim protocol (what each `try_claim` outcome leads to, claim before memo lookup), … as Lean functions over small structures of abstract values.  The theorems below state that
   each model decision IS the generated one (extensional equality, for all inputs), and that whole
   model steps equal the steps re-assembled from generated decisions (`Proofs/GenLogic.lean`).
   An edit of such a condition in /repo changes the generated definition and breaks a theorem here
@@ -261,5 +261,58 @@ theorem genlogic_core3_mcaStep (fe : Core3.FetchFn) (mc : Core3.McaFn) (P : Core
 example : shallow_verify_memo (plainMemoIn 2 5 (fun d => if d = 0 then 5 else 1) 1 1 true) = 1 ∧
     shallow_verify_memo (plainMemoIn 2 5 (fun d => if d = 0 then 5 else 1) 0 1 true) = 2 ∧
     shallow_verify_memo (plainMemoIn 5 5 (fun d => if d = 0 then 5 else 1) 0 1 true) = 0 := by decide
+
+/-! ## 3. the claim protocol (src/function/maybe_changed_after.rs: `maybe_changed_after_cold::inner`,
+    src/function/fetch.rs: `fetch_cold`, `refresh_memo`)
+
+  What each outcome of `sync_table.try_claim` leads to is generated from the match arms
+  (`ClaimArm`), the position of the memo-table reads relative to the claim from the statement
+  order; the retry loops of `maybe_changed_after` / `refresh_memo` and `verify_memo` are pinned
+  verbatim by the generator.  These are the protocol facts the C16 / C17 / C18 arguments use. -/
+
+/-- `maybe_changed_after`: a thread that found the query `Running` blocks, ignores what
+    `block_on` returns, reads no memo, and leaves with `Retry`, which gives the caller's loop no
+    answer (`None`): after a wake-up the ONLY continuation is to start over — a fresh table read,
+    the hot test, a new claim — whatever the table contains. -/
+theorem genlogic_mca_running_retries :
+    mca_on_running = { blocks := true, blockResultIgnored := true, memoReads := 0, exit := .retry } ∧
+    mca_retry_is_no_answer = true ∧
+    (∀ checksFinal, mca_on_running.exit ≠ .answerFromMemo checksFinal) := by
+  refine ⟨by decide, by decide, ?_⟩
+  intro c; cases c <;> decide
+
+/-- `fetch`: same for `fetch_cold` (`return None` makes `refresh_memo` loop) -/
+theorem genlogic_fetch_running_retries :
+    fetch_on_running = { blocks := true, blockResultIgnored := true, memoReads := 0, exit := .retry } ∧
+    (∀ checksFinal, fetch_on_running.exit ≠ .answerFromMemo checksFinal) := by
+  refine ⟨by decide, ?_⟩
+  intro c; cases c <;> decide
+
+/-- claim first, then look the memo up again: no memo-table read precedes `try_claim` in either
+    function, the `Claimed` arm just yields the guard, and the very next statement re-reads the
+    memo (exactly one read after the claim) -/
+theorem genlogic_claim_before_lookup :
+    mca_memo_reads_before_claim = 0 ∧ fetch_memo_reads_before_claim = 0 ∧
+    mca_on_claimed = { blocks := false, blockResultIgnored := true, memoReads := 0, exit := .continue_ } ∧
+    fetch_on_claimed = { blocks := false, blockResultIgnored := true, memoReads := 0, exit := .continue_ } ∧
+    mca_rereads_after_claim = true ∧ fetch_rereads_after_claim = true ∧
+    mca_memo_reads_after_claim = 1 ∧ fetch_memo_reads_after_claim = 1 := by decide
+
+/-- a `Cycle` outcome goes to the cycle handler without blocking or reading a memo; there are
+    exactly the three arms; `maybe_changed_after` denies re-entrancy, `fetch` allows it -/
+theorem genlogic_claim_cycle :
+    mca_on_cycle = { blocks := false, blockResultIgnored := true, memoReads := 0, exit := .cycle } ∧
+    fetch_on_cycle = { blocks := false, blockResultIgnored := true, memoReads := 0, exit := .cycle } ∧
+    mca_claim_arms = 3 ∧ fetch_claim_arms = 3 ∧
+    mca_reentrancy_allowed = false ∧ fetch_reentrancy_allowed = true := by decide
+
+/-- what precedes returning the old memo after a successful claim: it has a value and
+    `verify_memo` accepted it, and `verify_memo` accepts on its shallow branch only if
+    `shallow_verify_memo` said yes AND `validate_may_be_provisional` holds -/
+theorem genlogic_fetch_claimed_checks (m : MemoIn) (u : Nat) (verified : Bool) :
+    (fetch_cold_reuses m verified = true → m.hasValue = true ∧ verified = true) ∧
+    (verify_shallow_applies m u = true →
+      ShallowUpdate.yes u = true ∧ m.validateMayBeProvisional = true) := by
+  simp [fetch_cold_reuses, verify_shallow_applies]
 
 end SalsaVerif.Props.GenLogic
